@@ -377,6 +377,56 @@ func runC08(ctx *Ctx, idx int) {
 			return k
 		}))
 	}
+	// the caller's slice is a buffer with a history: the list that was accepted a
+	// moment ago is edited in place (same backing array, same length or
+	// shorter, or refilled from the start) and submitted again. What was true
+	// of the slice at the previous call says nothing about it now.
+	if n >= 2 && st != nil && err == nil {
+		buf := append(make([]string, 0, n+4), keys...)
+		vs := vals.Slice()
+		inPlace := func(name string, edit func() []string) {
+			if _, e0, p0, _ := buildTrie(vals.Encoder(), buf[:n], vs, o.Opt()); e0 != nil || p0 != nil {
+				return // the valid list itself is not accepted: reported above
+			}
+			bad := edit()
+			isBad := false
+			for i := 0; i+1 < len(bad); i++ {
+				if bad[i] >= bad[i+1] {
+					isBad = true
+				}
+			}
+			if isBad {
+				bv := genVals(r, vals.Kind, len(bad), 0)
+				st2, err2, pv2, stack2 := buildTrie(bv.Encoder(), bad, bv.Slice(), o.Opt())
+				ctx.Count("invalid:builds_from_an_edited_accepted_slice", 1)
+				ex := map[string]interface{}{"injection": name + " (in place, in the slice that was accepted by the previous call)", "value_kind": vals.Kind}
+				if pv2 != nil {
+					ex["panic"], ex["stack"] = fmt.Sprint(pv2), stack2
+					c08Viol(ctx, "invalid-panic", o, bad, ex)
+				} else if err2 == nil {
+					c08Viol(ctx, "invalid-accepted", o, bad, ex)
+				} else if errors.Cause(err2) != trie.ErrKeyOutOfOrder {
+					ex["error"] = err2.Error()
+					c08Viol(ctx, "wrong-error", o, bad, ex)
+				} else if st2 != nil {
+					c08Viol(ctx, "error-with-trie", o, bad, ex)
+				}
+			}
+			copy(buf[:n], keys) // restore
+		}
+		p := r.Intn(n - 1)
+		inPlace("swap", func() []string { buf[p], buf[p+1] = buf[p+1], buf[p]; return buf[:n] })
+		inPlace("overwrite-with-neighbour", func() []string { buf[p+1] = buf[p]; return buf[:n] })
+		inPlace("shorter-and-swapped", func() []string { buf[0], buf[n-1] = buf[n-1], buf[0]; return buf[:n-1+n%2] })
+		inPlace("refilled-from-the-start", func() []string {
+			nb := buf[:0]
+			for i := n - 1; i >= 0; i-- {
+				nb = append(nb, keys[i])
+			}
+			return nb
+		})
+		inPlace("grown-with-a-smaller-key", func() []string { return append(buf[:n], keys[0]) })
+	}
 	nontriv := false
 	for ii, in := range injs {
 		// is it really out of order? (an injection could coincide with order)
